@@ -6,6 +6,7 @@ From RV Require Import Base.Wire Base.Text Lang.StmtAst Lang.Transl Lang.StmtSem
 From RV Require Import Lang.StmtSimple.
 From RV Require Import Proofs.SkeletonP Proofs.SimTopP Proofs.SimDemoP Proofs.TranslAcceptP Proofs.SimAcceptP.
 From RV Require Import Lang.FnRet Proofs.FnRetP Lang.TupleOrder Proofs.TupleOrderP.
+From RV Require Import Lang.NoReinit Proofs.NoReinitP.
 Import ListNotations.
 Open Scope Z_scope.
 
@@ -46,16 +47,16 @@ Print Assumptions C01_continue_translation.
 
 (* Statement-level SIMULATION (reject-or-preserve, statement layer).  For every program that
    [transl] accepts and that lies inside the executable guard [guard_ok]
-     - every variable is first assigned at top level of the setup part (so it is a C global), or at
-       top level of the `while True:` body before any read of it in that body (so it is a local of
-       loop() that every pass assigns before using it),
+     - every variable is first assigned at top level of the setup part, or at top level of the
+       `while True:` body before any read of it in the text of that body (either way it is a C global;
+       the one of the main loop has the default initialiser and keeps its value between passes),
      - every later assignment / augmented assignment keeps the type label of the first one,
      - tuple assignment `x1, ..., xn = e1, ..., en` either as the declaration of n distinct NEW names at top
        level of the setup part (plain global declarations), or (n >= 1) to names that are ALL declared already and
        keep their types - swap, rotation, parallel assignment, at any nesting level and in the main loop: the
        right-hand sides go to temporaries `__tmp_assign_k` local to the enclosing block, then the names are
-       assigned in order (a tuple that mixes new and declared names, or declares names inside the main loop,
-       stays outside),
+       assigned in order (a tuple that mixes new and declared names, or first-assigns names inside the main loop
+       - globals assigned from the temporaries - stays outside),
      - declared names are not spelled like a temporary (StmtGuard.is_tmp; no Python identifier is),
      - range() bounds are int-labelled, do not read the loop variable nor any name the loop
        body assigns, loop variables are fresh, never assigned, and read only inside their loop,
@@ -136,7 +137,7 @@ Example C01_stmt_preserve_nonvacuous_swap :
 Proof. exact demo_swap_ok. Qed.
 Print Assumptions C01_stmt_preserve_nonvacuous_swap.
 
-(* ... and by a program whose main loop declares a local (first assignment at body level). *)
+(* ... and by a program whose main loop first-assigns a name at body level (a global of the sketch). *)
 Example C01_stmt_preserve_nonvacuous_local :
   guard_ok demo_local = true /\ sem_facts demo_local_sem demo_aug demo_local /\
   pprog_exec demo_local_sem demo_aug 30 3 demo_local = Some demo_local_trace /\
@@ -178,32 +179,79 @@ Theorem C01_stmt_retype_refuted :
 Proof. exact retype_refuted. Qed.
 Print Assumptions C01_stmt_retype_refuted.
 
-(* Hoisting ("promotion") out of nested blocks is not semantics-preserving: a name first assigned
-   inside a loop nested in another loop is hoisted twice, and the inner hoisted declaration is
-   rewritten to `z = 0;`, which the outer loop executes again on every iteration.
-   `w = 0; while w < 2: (for k in range(1 - w): z = 5); w = w + 1` then `mon.write(z)`:
-   Python writes 5, the device writes 0.  Finding F-C01-hoisted-decl-reinit. *)
-Theorem C01_stmt_promotion_reinit_refuted :
-  exists c trP trC,
-    transl reinit = Some c /\ sem_facts reinit_sem demo_aug reinit /\
-    pprog_exec reinit_sem demo_aug 20 0 reinit = Some trP /\
-    cprog_exec reinit_sem demo_aug (info_of reinit) 20 0 false c = Some trC /\
-    trP <> trC /\ guard_ok reinit = false.
-Proof. exact reinit_refuted. Qed.
-Print Assumptions C01_stmt_promotion_reinit_refuted.
+(* Hoisting ("promotion") out of nested blocks stays outside the guard of the simulation theorem, but the defect it
+   used to have is repaired (F-C01-hoisted-decl-reinit): a name first assigned inside a loop nested in another loop is
+   hoisted twice, and the inner hoisted declaration is now DROPPED by the outer block's rewrite instead of becoming
+   `z = 0;` (re-executed on every outer iteration).  For every list of promoted names and every node list: the
+   default-initialised declaration of a promoted name vanishes, a first assignment of a promoted name becomes a plain
+   assignment (both rewriters). *)
+Theorem C01_hoisted_declaration_dropped : forall pn x t l, tmem x pn = true ->
+  map (rewrite_deep pn) (drop_hoisted pn (NDecl x t (XDefault t) false :: l)) = map (rewrite_deep pn) (drop_hoisted pn l) /\
+  map (rewrite_if pn) (drop_hoisted pn (NDecl x t (XDefault t) false :: l)) = map (rewrite_if pn) (drop_hoisted pn l).
+Proof. exact hoisted_dropped. Qed.
+Print Assumptions C01_hoisted_declaration_dropped.
 
-(* A name first assigned inside `while True:` is a local of loop() and is declared (hoisted:
-   with its default value) again on every pass, while Python keeps its value from the previous pass:
-   `w = 0; while True: (if w == 0: z = 5); w = w + 1; mon.write(z)` writes 5 5 in Python and
-   5 0 on the device.  Finding F-C01-loop-local-reinit. *)
-Theorem C01_stmt_loop_local_reinit_refuted :
-  exists c trP trC,
+Theorem C01_first_assignment_becomes_assignment : forall pn x t id l, tmem x pn = true ->
+  map (rewrite_deep pn) (drop_hoisted pn (NDecl x t (XE id) false :: l)) = NAssign x (XE id) :: map (rewrite_deep pn) (drop_hoisted pn l) /\
+  map (rewrite_if pn) (drop_hoisted pn (NDecl x t (XE id) false :: l)) = NAssign x (XE id) :: map (rewrite_if pn) (drop_hoisted pn l).
+Proof. exact first_assignment_kept. Qed.
+Print Assumptions C01_first_assignment_becomes_assignment.
+
+(* NOTHING IS RE-INITIALISED, for every program the translation accepts (hoisting at any depth, in the prologue and in
+   the main loop, tuples, every nesting of if / elif / else / while / for): no node of setup() or loop(), at any depth,
+   declares or assigns a variable with the type's default value ([nodef_prog], Lang/NoReinit.v) - the default
+   initialisers of hoisted names and of names first assigned inside the main loop all sit in GLOBAL declarations,
+   which run once.  This is the universally quantified statement both repaired findings contradicted: before the
+   repair loop() began with `T z = <default>;` for a name hoisted inside `while True:` (F-C01-loop-local-reinit) and an
+   enclosing block contained `z = <default>;` for a name hoisted twice (F-C01-hoisted-decl-reinit).  Proof: every block
+   leaves hoisted declarations only at its own top level and only for names it introduced; the enclosing block promotes
+   exactly those names and its rewrite drops them; at setup depth 0 and at the body level of the main loop
+   promo_decls emits no node. *)
+Theorem C01_nothing_is_reinitialised : forall p c, transl p = Some c -> nodef_prog c = true.
+Proof. exact transl_default_free. Qed.
+Print Assumptions C01_nothing_is_reinitialised.
+
+Example C01_nothing_is_reinitialised_nonvacuous :
+  (exists c, transl looplocal = Some c /\ nodef_prog c = true /\ existsb (fun g => is_def (g_init g)) (c_globals c) = true) /\
+  (exists c, transl reinit = Some c /\ nodef_prog c = true /\ existsb (fun g => is_def (g_init g)) (c_globals c) = true).
+Proof. exact default_free_demo. Qed.
+Print Assumptions C01_nothing_is_reinitialised_nonvacuous.
+
+(* the witness of the repaired finding: `w = 0; while w < 2: (for k in range(1 - w): z = 5); w = w + 1` then
+   `mon.write(z)`: Python writes 5, and so does the device (it used to write 0). *)
+Theorem C01_stmt_promotion_no_reinit :
+  exists c tr,
+    transl reinit = Some c /\ sem_facts reinit_sem demo_aug reinit /\
+    pprog_exec reinit_sem demo_aug 20 0 reinit = Some tr /\
+    cprog_exec reinit_sem demo_aug (info_of reinit) 20 0 false c = Some tr /\
+    tr = [EvSer (VI 5)] /\ guard_ok reinit = false.
+Proof. exact reinit_preserved. Qed.
+Print Assumptions C01_stmt_promotion_no_reinit.
+
+(* A name first assigned inside `while True:` is a sketch GLOBAL (repaired: F-C01-loop-local-reinit; it used to be a
+   local of loop(), declared again on every pass).  At the body level of the main loop, for every name not declared
+   yet, every expression and every translator state: a global with the type's default initialiser plus the
+   assignment in place - never a static initialiser, the assignment runs on every pass.  Inside the guard this is part
+   of C01_stmt_preserve_partial (the names the main-loop body first assigns at its top level are globals whose values
+   carry over from pass to pass); a name hoisted to that level out of a nested block becomes a global the same way
+   ([promo_decls true]). *)
+Theorem C01_main_loop_first_assignment_is_global : forall x e s, is_declared x s = false ->
+  tr_assign true x (rt_ann true e) s =
+  ([NAssign x (XE (a_id e))],
+   add_global {| g_name := x; g_ty := a_ty e; g_init := XDefault (a_ty e) |} (declare x (with_ty x (a_ty e) s))).
+Proof. exact main_loop_first_assignment. Qed.
+Print Assumptions C01_main_loop_first_assignment_is_global.
+
+(* the witness of the repaired finding: `w = 0; while True: (if w == 0: z = 5); w = w + 1; mon.write(z)` writes 5 5
+   in Python and on the device (it used to write 5 0); w and z are the globals of the sketch. *)
+Theorem C01_stmt_loop_variable_persists :
+  exists c tr,
     transl looplocal = Some c /\ sem_facts looplocal_sem demo_aug looplocal /\
-    pprog_exec looplocal_sem demo_aug 20 2 looplocal = Some trP /\
-    cprog_exec looplocal_sem demo_aug (info_of looplocal) 20 2 true c = Some trC /\
-    trP <> trC /\ guard_ok looplocal = false.
-Proof. exact looplocal_refuted. Qed.
-Print Assumptions C01_stmt_loop_local_reinit_refuted.
+    pprog_exec looplocal_sem demo_aug 20 2 looplocal = Some tr /\
+    cprog_exec looplocal_sem demo_aug (info_of looplocal) 20 2 true c = Some tr /\
+    tr = [EvSer (VI 5); EvSer (VI 5)] /\ map g_name (c_globals c) = [[119]; [122]] /\ guard_ok looplocal = false.
+Proof. exact looplocal_preserved. Qed.
+Print Assumptions C01_stmt_loop_variable_persists.
 
 (* ================= helper functions with several return statements (Lang/FnRet.v) =================
    The C++ return type of a helper is _merge_return_types of the labels of its return statements ([merge_ret],
